@@ -27,6 +27,9 @@
 #ifndef RING_FRAMES
 #define RING_FRAMES 4
 #endif
+#ifndef CL_ROUNDS
+#define CL_ROUNDS 2
+#endif
 #define RING_BYTES (RING_FRAMES * FRAME_BYTES + 8)
 
 static enum DeviceStatusCode
@@ -146,8 +149,12 @@ main(void)
 #if PROG == 1 || PROG == 3
     int holding_across_stop = 0;
     for (int a = 0; a < ACQS; ++a) {
+#ifdef FIX_N
+        uint64_t N = FIX_N;
+#else
         uint64_t N = ND(uint8_t);
         VASSUME(N >= 1 && N <= NMAX);
+#endif
         fill_props(0, 0, 0, N, 0);
 #if PROG == 3
         int fault_kind = 0;
@@ -168,11 +175,22 @@ main(void)
         STO[0].expect_acq = cur_acq;
         cl_next = -1;
         VASSERT(acquire_get_state(rt) == DeviceState_Running, "C08: not Running right after start although the workers have not finished");
+#ifdef FIX_EARLY
+        bool_t src_early = FIX_EARLY;
+#else
         bool_t src_early = ND(bool_t);
+#endif
         if (src_early) verif_run_pending(&RT->video[0].source.thread);
 #if PROG == 1
+#ifdef EXCL_C06_FIRST_MAP
+        /* known finding C06-first-map-sees-earlier-data assumed away: the client's FIRST map ever
+         * happens before the first frame of the first acquisition is written (it registers at an
+         * empty ring); every other client program is explored from there */
+        if (a == 0 && !src_early) { client_map(rt, 1); if (cl_mapped) client_unmap(rt); }
+        else if (a == 0) VASSUME(0);
+#endif
         /* client: up to two map/unmap rounds while the acquisition is live */
-        for (int r = 0; r < 2; ++r) {
+        for (int r = 0; r < CL_ROUNDS; ++r) {
             if (ND(bool_t)) {
                 if (!cl_mapped) client_map(rt, 1);
                 if (cl_mapped && ND(bool_t)) client_unmap(rt); /* or keep holding the region */
@@ -180,7 +198,11 @@ main(void)
         }
         holding_across_stop = cl_mapped;
 #endif
+#ifdef FIX_ABORT
+        bool_t use_abort = FIX_ABORT;
+#else
         bool_t use_abort = ND(bool_t);
+#endif
         enum AcquireStatusCode rc = use_abort ? acquire_abort(rt) : acquire_stop(rt);
         VASSERT(rc == AcquireStatus_Ok, "stop/abort failed");
         VASSERT(!verif_thread_pending(&RT->video[0].source.thread) && !verif_thread_pending(&RT->video[0].filter.thread) &&
